@@ -1,4 +1,4 @@
-#![feature(allocator_api)]
+#![feature(allocator_api, sized_hierarchy)]
 #![allow(unused, non_snake_case, non_camel_case_types, dead_code)]
 use vstd::prelude::*;
 use vstd::string::*;
@@ -35,6 +35,14 @@ impl Clone for EncoderContext {
 }
 //@item! stun_rs :: mod context > struct AttributeEncoderContext
 impl<'a> AttributeEncoderContext<'a> {
+//@item stun_rs :: mod context > impl<'a> AttributeEncoderContext<'a> > fn new
+//@spec
+    ensures r.ctx == ctx, r.encoded_msg == encoded_msg, r.raw_value@ == old(raw_value)@, final(r.raw_value)@ == final(raw_value)@,
+//@end
+//@item stun_rs :: mod context > impl<'a> AttributeEncoderContext<'a> > fn context
+//@spec
+    ensures r == self.ctx,
+//@end
 //@item stun_rs :: mod context > impl<'a> AttributeEncoderContext<'a> > fn encoded_message
 //@spec
     ensures r == self.encoded_msg,
@@ -54,7 +62,20 @@ impl<'a> AttributeEncoderContext<'a> {
 pub struct HMACKey { _p: () }
 //@item! stun_rs :: mod context > struct DecoderContext
 //@item! stun_rs :: mod context > struct AttributeDecoderContext
+impl Clone for DecoderContext {
+//@item stun_rs :: mod context > impl ::core::clone::Clone for DecoderContext > fn clone
+//@spec
+    ensures r.validation == self.validation, r.unknown_data == self.unknown_data, r.not_ignore == self.not_ignore, r.key is Some <==> self.key is Some,
+//@end
+}
+impl Clone for HMACKey { #[verifier::external_body] fn clone(&self) -> (r: Self) ensures r == *self { unimplemented!() } }
 impl<'a> AttributeDecoderContext<'a> {
+//@item stun_rs :: mod context > impl<'a> AttributeDecoderContext<'a> > fn new
+//@spec
+    ensures r.ctx == ctx, r.decoded_msg == decoded_msg, r.raw_value == raw_value,
+//@end
+//@item stun_rs :: mod context > impl<'a> AttributeDecoderContext<'a> > fn context
+//@end
 //@item stun_rs :: mod context > impl<'a> AttributeDecoderContext<'a> > fn raw_value
 //@spec
     ensures r == self.raw_value,
@@ -85,6 +106,9 @@ pub trait DecodeAttributeValue: Sized {
     // what the kind's RFC section says a value means; None = malformed
     spec fn unwire(raw: Seq<u8>, prefix: Seq<u8>) -> Option<Self>;
     fn decode(ctx: AttributeDecoderContext) -> (r: Result<(Self, usize), StunError>)
+        // contexts are only built inside the crate (AttributeDecoderContext::new is pub(crate)): by MessageDecoder::decode from a
+        // raw attribute whose length field is 16 bits (proved at that call, unit `dec`), and by PasswordAlgorithms::decode from sub-slices
+        requires ctx.raw_value@.len() <= 0xFFFF,
         ensures r is Ok <==> Self::unwire(ctx.raw_value@, ctx.decoded_msg@) is Some,
             r is Ok ==> r->Ok_0.0 == Self::unwire(ctx.raw_value@, ctx.decoded_msg@)->Some_0 && r->Ok_0.1 <= ctx.raw_value@.len();
 }
